@@ -51,9 +51,9 @@ def guardRead (s : State) (n : Nat) : Bool :=
 
 def guardWrite (s : State) : Bool := s.abort || decide (s.tellp - s.tellg < s.bufferSize)
 
-/-- `static_cast<uint32_t>(m_tellp - m_tellg) < m_bufferSize` -/
-def guardWriteCont (s : State) : Bool :=
-  s.abort || decide (((s.tellp - s.tellg) % 4294967296 : Int) < s.bufferSize)
+/-- `(m_tellp - m_tellg) < m_bufferSize` (signed; before fix ceee689 the difference was cast to uint32_t,
+    which blocked the inflater for ever once the get position had moved past the put position) -/
+def guardWriteCont (s : State) : Bool := s.abort || decide (s.tellp - s.tellg < s.bufferSize)
 
 /-- the copy loop of `read` -/
 def readLoop : Nat → State → Int → Bytes → State × Bytes
